@@ -1,6 +1,7 @@
 package rules
 
 import (
+	"go/constant"
 	"fmt"
 	"go/token"
 	"go/types"
@@ -80,8 +81,92 @@ func checkC14(c *Ctx) {
 			}
 		}
 	}
+	// selfExcluded: the collection keeps this node out of the slice the loop ranges over (remotes) and reports it
+	// apart, as a flag (local, remotes := destinations(topic)): the local append is then made once, outside the loop
+	selfExcluded := false
+	var destCall *ssa.Call
+	if loop == nil && destMap != nil {
+		// the destinations may be handed to the loop as a slice of distinct peers: each peer appended once, under a
+		// test that it is not yet in the set (if _, ok := seen[p]; ok { continue }; seen[p] = …; peers = append(peers, p))
+		for _, l := range core.Loops(f) {
+			for b := range l.Blocks {
+				for _, in := range b.Instrs {
+					ia, ok := in.(*ssa.IndexAddr)
+					if !ok || ia.Referrers() == nil {
+						continue
+					}
+					src := core.Strip(ia.X)
+					ridx := 0
+					cvv := src
+					if ex, isEx := src.(*ssa.Extract); isEx {
+						cvv, ridx = ex.Tuple, ex.Index
+					}
+					if cv, isCall := cvv.(*ssa.Call); isCall {
+						if g := cv.Call.StaticCallee(); g != nil && len(g.Blocks) > 0 {
+							var rv ssa.Value
+							n := 0
+							for _, gb := range g.Blocks {
+								if r, isRet := gb.Instrs[len(gb.Instrs)-1].(*ssa.Return); isRet && ridx < len(r.Results) {
+									rv = r.Results[ridx]
+									n++
+								}
+							}
+							if n == 1 {
+								src = rv
+							}
+						}
+					}
+					elems, from, _, ok := sliceSources(src)
+					if !ok || len(elems) == 0 {
+						continue
+					}
+					distinct, excl := true, true
+					for i, e := range elems {
+						notSelf := false
+						for _, cc := range controllingConds(from[i].Block(), nil) {
+							if bo, isBo := cc.cond.(*ssa.BinOp); isBo && bo.Op == token.EQL && !cc.pol {
+								if (stringsContains(core.Term(bo.X), ".Peer") && lastField(core.Term(bo.Y)) == ".ID") || (stringsContains(core.Term(bo.Y), ".Peer") && lastField(core.Term(bo.X)) == ".ID") {
+									notSelf = true
+								}
+							}
+						}
+						if !notSelf {
+							excl = false
+						}
+						if !stringsContains(core.Term(e), ".Peer") || !depReaches(e, func(v ssa.Value) bool { return v == bps[0].Value() }) {
+							distinct = false
+						}
+						unseen := false
+						for _, cc := range controllingConds(from[i].Block(), nil) {
+							if ex, isEx := cc.cond.(*ssa.Extract); isEx && ex.Index == 1 && !cc.pol {
+								if lk, isLk := ex.Tuple.(*ssa.Lookup); isLk && lk.CommaOk && core.Strip(lk.X) == core.Strip(destMap) {
+									unseen = true
+								}
+							}
+						}
+						if !unseen {
+							distinct = false
+						}
+					}
+					if !distinct {
+						continue
+					}
+					for _, r := range *ia.Referrers() {
+						if ld, isLoad := r.(*ssa.UnOp); isLoad && ld.Op == token.MUL {
+							loop, key = l, ld
+							selfExcluded = excl
+							if ex, isEx := core.Strip(ia.X).(*ssa.Extract); isEx {
+								destCall, _ = ex.Tuple.(*ssa.Call)
+							}
+						}
+					}
+				}
+			}
+		}
+	}
 	sends := c.callsToDeep(f, 2, app, tcall)
 	bad = ""
+	localServed := false
 	if loop == nil {
 		bad = "the loop that writes to destinations does not range over the destination set"
 	} else {
@@ -91,10 +176,18 @@ func checkC14(c *Ctx) {
 				bad = "a log append / remote call happens outside the loop over the destination set"
 			}
 			for _, in := range at {
-				if !loop.Blocks[in.Block()] {
-					bad = "a log append / remote call happens outside the loop over the destination set"
+				if loop.Blocks[in.Block()] {
+					continue
 				}
+				if selfExcluded && s.Is(app) && c.localAppendUnderFlag(f, in, s, destCall, pubIdx) {
+					localServed = true
+					continue
+				}
+				bad = "a log append / remote call happens outside the loop over the destination set"
 			}
+		}
+		if selfExcluded && !localServed && bad == "" {
+			bad = "this node is kept out of the destinations the loop serves, and nothing appends the message to the local log when this node hosts a matching subscription"
 		}
 	}
 	if bad == "" {
@@ -115,6 +208,10 @@ func checkC14(c *Ctx) {
 					continue
 				}
 				self, transportNil := tri{}, tri{}
+				if selfExcluded {
+					self = tri{true, false}
+				}
+				infeasible := false
 				for _, cd := range p.Conds {
 					bo, ok := cd.V.(*ssa.BinOp)
 					if !ok || (bo.Op != token.EQL && bo.Op != token.NEQ) {
@@ -122,6 +219,9 @@ func checkC14(c *Ctx) {
 					}
 					x, y := p.Resolve(bo.X), p.Resolve(bo.Y)
 					if (x == key && stringsContains(core.Term(y), ".ID")) || (y == key && stringsContains(core.Term(x), ".ID")) {
+						if self.known && self.val != cd.Val {
+							infeasible = true // the same destination tested against this node's id twice, with two answers (helper and caller forked independently)
+						}
 						self = tri{true, cd.Val}
 					}
 					for _, pair := range [][2]ssa.Value{{x, y}, {y, x}} {
@@ -129,6 +229,9 @@ func checkC14(c *Ctx) {
 							transportNil = tri{true, cd.Val}
 						}
 					}
+				}
+				if infeasible {
+					continue
 				}
 				na, nc := 0, 0
 				for _, pc := range p.Calls() {
@@ -178,6 +281,9 @@ func checkC14(c *Ctx) {
 						bad = fmt.Sprintf("for a remote destination: %d appends, %d remote calls (want 0, 1): the message is logged on the wrong node or more than once", na, nc)
 					}
 				}
+			}
+			if selfExcluded && localServed {
+				rows["self"]++
 			}
 			if bad == "" && (rows["self"] == 0 || rows["remote"] == 0) {
 				bad = fmt.Sprintf("rows covered %v: a destination kind is never served", rows)
@@ -269,6 +375,18 @@ func checkC14(c *Ctx) {
 						}
 					}
 					if !guarded {
+						// read out of the result of a helper that keeps hosted subscriptions only
+						// (local := w.hosted(subscriptions): appends an element only under element.Peer == w.peerID)
+						guarded = containerReaches(st.Val, func(x ssa.Value) bool {
+							cv, ok := x.(*ssa.Call)
+							if !ok {
+								return false
+							}
+							g := cv.Call.StaticCallee()
+							return g != nil && g.Package() == rf.Package() && returnsOnlyHosted(g)
+						})
+					}
+					if !guarded {
 						bad = "a recipient is recorded at " + c.whereI(st) + " without checking that its subscription is hosted by this node: sessions of other nodes would be looked up (and a message delivered twice cluster-wide if ids collide)"
 					}
 				}
@@ -276,4 +394,129 @@ func checkC14(c *Ctx) {
 		}
 		ru5.Check(bad == "" && n > 0, "recipients kept by "+c.fname(run), c.where(run, run), fmt.Sprintf("%d recipient store(s), all under Peer == peerID", n), bad)
 	}
+}
+
+// localAppendUnderFlag: the Append reached through instruction at of f (outside the destination loop) is made once (in no
+// loop), with the publish being distributed, under a flag returned by the collection (destCall) that is true only when
+// a matching subscription is hosted by this node (set to true only under subscription.Peer == self.ID).
+func (c *Ctx) localAppendUnderFlag(f *ssa.Function, at ssa.Instruction, app *core.Call, destCall *ssa.Call, pubIdx int) bool {
+	if destCall == nil || pubIdx < 0 || core.InnermostLoop(core.Loops(f), at.Block()) != nil {
+		return false
+	}
+	if app.Instr.Parent() != f && core.InnermostLoop(core.Loops(app.Instr.Parent()), app.Instr.Block()) != nil {
+		return false
+	}
+	if !same(app.Arg(0), f.Params[pubIdx]) {
+		return false
+	}
+	g := destCall.Call.StaticCallee()
+	if g == nil || len(g.Blocks) == 0 {
+		return false
+	}
+	for _, cc := range controllingConds(at.Block(), nil) {
+		ex, ok := cc.cond.(*ssa.Extract)
+		if !ok || ex.Tuple != ssa.Value(destCall) || !cc.pol {
+			continue
+		}
+		// what g returns there
+		var rv ssa.Value
+		n := 0
+		for _, b := range g.Blocks {
+			if r, isRet := b.Instrs[len(b.Instrs)-1].(*ssa.Return); isRet && ex.Index < len(r.Results) {
+				rv = r.Results[ex.Index]
+				n++
+			}
+		}
+		if n != 1 {
+			return false
+		}
+		ok = true
+		sawTrue := false
+		seen := map[ssa.Value]bool{}
+		var walk func(v ssa.Value, from *ssa.BasicBlock)
+		walk = func(v ssa.Value, from *ssa.BasicBlock) {
+			if seen[v] {
+				return
+			}
+			seen[v] = true
+			switch x := v.(type) {
+			case *ssa.Phi:
+				for i, e := range x.Edges {
+					walk(e, x.Block().Preds[i])
+				}
+			case *ssa.Const:
+				if x.Value == nil || x.Value.Kind() != constant.Bool {
+					ok = false
+					return
+				}
+				if constant.BoolVal(x.Value) {
+					sawTrue = true
+					// the edge that brings true comes from a block run only when the subscription is hosted here
+					hosted := false
+					if from != nil {
+						for _, fc := range controllingConds(from, nil) {
+							if bo, isBo := fc.cond.(*ssa.BinOp); isBo && bo.Op == token.EQL && fc.pol {
+								if (stringsContains(core.Term(bo.X), ".Peer") && lastField(core.Term(bo.Y)) == ".ID") || (stringsContains(core.Term(bo.Y), ".Peer") && lastField(core.Term(bo.X)) == ".ID") {
+									hosted = true
+								}
+							}
+						}
+					}
+					if !hosted {
+						ok = false
+					}
+				}
+			default:
+				ok = false
+			}
+		}
+		walk(rv, nil)
+		return ok && sawTrue
+	}
+	return false
+}
+
+// returnsOnlyHosted: the slice g returns is accumulated in g with appends only, each made under a test that the
+// element's Peer equals a value read from g's receiver (the node's own id).
+func returnsOnlyHosted(g *ssa.Function) bool {
+	if len(g.Blocks) == 0 || len(g.Params) == 0 {
+		return false
+	}
+	n := 0
+	for _, b := range g.Blocks {
+		r, ok := b.Instrs[len(b.Instrs)-1].(*ssa.Return)
+		if !ok {
+			continue
+		}
+		for _, rv := range r.Results {
+			if _, isSlice := rv.Type().Underlying().(*types.Slice); !isSlice {
+				continue
+			}
+			elems, from, _, ok := sliceSources(rv)
+			if !ok {
+				return false
+			}
+			for i := range elems {
+				hosted := false
+				for _, cc := range controllingConds(from[i].Block(), nil) {
+					bo, isBo := cc.cond.(*ssa.BinOp)
+					if !isBo || !((bo.Op == token.EQL && cc.pol) || (bo.Op == token.NEQ && !cc.pol)) {
+						continue
+					}
+					own := func(v ssa.Value) bool {
+						return !stringsContains(core.Term(v), ".Peer") && containerReaches(v, func(x ssa.Value) bool { return x == ssa.Value(g.Params[0]) })
+					}
+					// the element tested is the element appended (same range variable)
+					if (stringsContains(core.Term(bo.X), ".Peer") && own(bo.Y)) || (stringsContains(core.Term(bo.Y), ".Peer") && own(bo.X)) {
+						hosted = true
+					}
+				}
+				if !hosted {
+					return false
+				}
+				n++
+			}
+		}
+	}
+	return n > 0
 }
